@@ -92,6 +92,7 @@ RawClauses(stim, sent, status, head, bytes, hints, trs, srv) ==
         <<"C05.EncodingOnlyAsNegotiated", (enc # "" /\ hdrVisible) => (enc \in SeqToSet(stim.server.send) /\ enc \in offered)>>,
         <<"C05.EncodingOnlyAsConfigured", enc # "" => enc \in SeqToSet(stim.server.send)>>,
         <<"C05.AnnouncedIffChosen", Len(Values(head, "grpc-encoding")) <= 1 /\ (enc = "" => NoneFlagged(bytes))>>,
+        <<"C05.CompressedWithAnnouncedEncoding", FlaggedDecode(bytes, hints, enc)>>,
         <<"C05.ServedWhenAcceptable", (~refused /\ ~flagNoEnc /\ stim.raw.wellformed) => (code = FinalCode(stim) /\ Is(srv))>>,
         <<"C03.BodyIsTheMessages", (~refused /\ ~flagNoEnc /\ stim.raw.wellformed) => BodyCarries(bytes, hints, SentMsgs(stim), enc)>> >>
 
@@ -118,7 +119,8 @@ Bodies == /\ Live("bodies")
                        <<"HintsAligned", HintsOK(E.req.bytes, E.req.frames) /\ HintsOK(E.resp.bytes, E.resp.frames)>> >>
                     \o (IF ClientMode /\ Tapped /\ Is(s.reqHead) /\ ~EncRefused(s.stim) /\ ~LimitHit(s.stim) THEN   \* a refused request's body is never read
                            << <<"C03.RequestBodyIsTheMessages", BodyCarries(E.req.bytes, E.req.frames, s.stim.req.msgs, s.stim.client.send)>>,
-                              <<"C05.ClientCompressesAsConfigured", IF s.stim.client.send = "" THEN NoneFlagged(E.req.bytes) ELSE AllFlagged(E.req.bytes)>> >>
+                              <<"C05.ClientCompressesAsConfigured", IF s.stim.client.send = "" THEN NoneFlagged(E.req.bytes) ELSE AllFlagged(E.req.bytes)>>,
+                              <<"C05.CompressedWithAnnouncedEncoding", FlaggedDecode(E.req.bytes, E.req.frames, s.stim.client.send)>> >>
                         ELSE <<>>)
                     \o (IF ClientMode /\ Tapped /\ Is(s.respHead) /\ ~EncRefused(s.stim) /\ ~LimitHit(s.stim) THEN
                            ResponseClauses(s.stim, s.respHead.status, s.respHead.list, E.resp.bytes, E.resp.frames, s.respTrs, off)
